@@ -82,3 +82,23 @@ for _tag, _pops, _known, _want in (("one_population", "p1", (True, True, True), 
         raises=({} if _want is not None else {"NotFoundError": "True"}), raises_props=["C20"],
         ensures=([("C20.the_objects_of_the_population_asked_or_of_every_population_that_knows_the_name_in_order", "result == %r" % (_want,))] if _want is not None else []),
         defined_props=["C20"])
+
+
+# ---- Population.get_comp / get_charac / get_par / get_links (C20: outputs are looked up by name): the object of that name in this population; links can be asked for by the name
+# of their parameter (all links that parameter drives) or by their own name; an unknown name is refused with NotFoundError, never with a KeyError
+def _env_lookups(it):
+    from pyvc.interp import PyObjV
+    from pyvc import source
+
+    mm = source.load("model")
+    par = PyObjV("Parameter", mm, {"name": "rec", "links": ["link 1", "link 2"]})
+    return {"self": PyObjV("Population", mm, {"name": "adults", "comp_lookup": {"sus": "COMP"}, "charac_lookup": {"alive": "CHARAC"}, "par_lookup": {"rec": par}, "link_lookup": {"rec:flow": ["link 1", "link 2"], "z": ["link 3"]}}), "PAR": par}
+
+
+for _fn, _arg, _name, _want in (("get_comp", "comp_name", "sus", "result == 'COMP'"), ("get_charac", "charac_name", "alive", "result == 'CHARAC'"), ("get_par", "par_name", "rec", "result is PAR"),
+                                ("get_links", "name", "rec", "result == ['link 1', 'link 2']"), ("get_links", "name", "z", "result == ['link 3']")):
+    CONTRACTS["model:Population.%s#%s" % (_fn, _name)] = dict(
+        schema=schema, make_env=(lambda a, n: (lambda it: dict(_env_lookups(it), **{a: n})))(_arg, _name), ensures=[("C20.the_object_of_that_name_in_this_population", _want)], defined_props=["C20"])
+for _fn, _arg in (("get_comp", "comp_name"), ("get_charac", "charac_name"), ("get_par", "par_name"), ("get_links", "name")):
+    CONTRACTS["model:Population.%s#unknown_name" % _fn] = dict(
+        schema=schema, make_env=(lambda a: (lambda it: dict(_env_lookups(it), **{a: "nothing"})))(_arg), raises={"NotFoundError": "True"}, raises_props=["C20", "C18"], ensures=[], defined_props=["C20"])
